@@ -67,16 +67,25 @@ func (c *Ctx) ruleSingleConsumer(rule string) {
 	// the dispatcher literal is used exactly once, as the operand of a go statement
 	if R.DispLoop != nil && R.SpawnDisp != nil {
 		n := 0
+		var goStmt ast.Node
 		ast.Inspect(R.SpawnDisp.Body, func(x ast.Node) bool {
 			if g, ok := x.(*ast.GoStmt); ok {
 				if lit, ok := ast.Unparen(g.Call.Fun).(*ast.FuncLit); ok && c.P.byLit[lit] == R.DispLoop {
 					n++
+					goStmt = g
+				} else if R.DispLoop.Lit == nil && resolveCallee(R.SpawnDisp.Info(), g.Call).Key == R.DispLoop.Key {
+					n++
+					goStmt = g
 				}
 			}
 			return true
 		})
-		c.Rep.check(n == 1 && c.loopDepthOf(R.SpawnDisp, R.DispLoop.Lit) == 0, rule, R.SpawnDisp.Short(), "one go statement for the dispatcher", c.P.pos(R.DispLoop.Lit),
-			"the dispatcher literal is the operand of exactly one go statement outside any loop", "the dispatcher literal must be spawned by exactly one go statement outside any loop")
+		if R.DispLoop.Lit == nil {
+			// a declared function as the goroutine body: nobody else starts or calls it
+			c.whoMayCall(rule, "the dispatcher goroutine's function", keyIn(R.DispLoop.Key), isFunc(R.SpawnDisp), "the dispatcher spawner")
+		}
+		c.Rep.check(n == 1 && goStmt != nil && c.loopDepthOf(R.SpawnDisp, goStmt) == 0, rule, R.SpawnDisp.Short(), "one go statement for the dispatcher", c.P.pos(R.SpawnDisp.Body),
+			"the dispatcher is the operand of exactly one go statement outside any loop", "the dispatcher must be spawned by exactly one go statement outside any loop")
 	}
 }
 
@@ -126,7 +135,7 @@ func (c *Ctx) ruleOneHandOff(rule string) {
 	if R.Step == nil || R.HandOff == nil {
 		return
 	}
-	v := c.vocab([]string{"deq", "deqok=", "isclosed", "closed=", "gate", "gate=", "handoff", "send"}, map[string]bool{"isclosed": true, "handoff": true})
+	v := c.vocab([]string{"deq", "deqok=", "isclosed", "closed=", "gate", "gate=", "handoff", "send", "perr=", "nexterr="}, map[string]bool{"isclosed": true, "handoff": true})
 	sr := v.seq(rule, false)
 	segs := sr.segments(R.Step)
 	for _, sg := range segs {
@@ -138,7 +147,7 @@ func (c *Ctx) ruleOneHandOff(rule string) {
 		}
 		n := sg.count("handoff")
 		retNil := len(sg.Ret) == 1 && sg.Ret[0].Kind == VNil
-		retErr := len(sg.Ret) == 1 && isNonNilErr(sg.Ret[0])
+		retErr := len(sg.Ret) == 1 && nonNilOnPath(sg, sg.Ret[0])
 		switch {
 		case n == 1:
 			ok := (sg.before("closed=false", "handoff") || sg.before("gate=true", "handoff")) && sg.count("deq") == 1
@@ -166,34 +175,82 @@ func (c *Ctx) ruleOneHandOff(rule string) {
 
 func (c *Ctx) handOffArgIsDequeued(rule string) {
 	R := c.R
-	info := R.Step.Info()
-	pv := c.deqProvenance()
-	if pv.Problem != "" {
-		c.Rep.undecided(rule, R.Step.Short(), "dequeue provenance", "", pv.Problem)
-		return
-	}
-	seeds := pv.Val
-	parse := c.P.FuncByKey("parseToJob")
-	d := derivedFrom(R.Step, seeds, func(call *ast.CallExpr) bool {
-		return parse != nil && resolveCallee(info, call).Key == parse.Key
-	})
-	for _, cs := range c.P.calls(R.Step) {
-		if cs.Callee.Key != R.HandOff.Key || len(cs.Call.Args) != 1 {
+	// value identity is followed by the interpreter: the Dequeue result is a token that survives assignments, type
+	// assertions and type switches and the return values of inlined helpers; parseToJob applied to that token yields
+	// the token "parsed". The hand-off must receive one of the two.
+	sr := c.stepProvenanceSeq(rule)
+	n := 0
+	for _, sg := range sr.segments(R.Step) {
+		if sg.Kind != "path" {
 			continue
 		}
-		o := rootIdent(info, cs.Call.Args[0])
-		onlyDeq := false
-		if o != nil && d[o] {
-			// every assignment to the variable must come from the dequeued value
-			all, n := assignedOnlyFrom(R.Step, o, func(rhs ast.Expr, idx, cnt int) bool {
-				ro := rootIdent(info, rhs)
-				return ro != nil && d[ro]
-			})
-			onlyDeq = all && n > 0
+		for _, sym := range sg.Syms {
+			if !strings.HasPrefix(sym, "handoff:") {
+				continue
+			}
+			n++
+			c.Rep.check(sym == "handoff:deqval" || sym == "handoff:parsed", rule, R.Step.Short(), "hand-off argument is the dequeued job", sg.End,
+				"argument is this invocation's Dequeue result (or the job decoded from it)", "the value handed off is not this invocation's Dequeue result (nor the job decoded from it): "+sym+" ["+strings.Join(sg.Syms, " ")+"]")
 		}
-		c.Rep.check(onlyDeq, rule, R.Step.Short(), "hand-off argument is the dequeued job", c.P.pos(cs.Call),
-			"argument derives only from the Dequeue result of this invocation", "the value handed off does not (only) derive from this invocation's Dequeue result")
 	}
+	if n == 0 {
+		c.Rep.undecided(rule, R.Step.Short(), "no hand-off seen", c.P.pos(R.Step.Body), "the provenance walk found no hand-off call in the dispatcher step")
+	}
+}
+
+// stepProvenanceSeq walks the dispatcher step with every library helper that takes part in dequeue / decode / attach /
+// hand-off inlined, and names the values that reach the hand-off and the two setters:
+//   handoff:<tok>   setack:<tok>   setqueue:<tok>   (tok = deqval, parsed, ackid, nextq, ... or "other")
+func (c *Ctx) stepProvenanceSeq(rule string) *seqRule {
+	R := c.R
+	base := c.classifier(map[string]bool{"handoff": true}, nil)
+	name := func(v Value) string {
+		if v.Kind == VTok {
+			return v.S
+		}
+		return "other"
+	}
+	sr := &seqRule{c: c, rule: rule}
+	sr.classify = func(fr *Frame, call *ast.CallExpr, ce *Callee, args []Value) *callEvent {
+		if R.HandOff != nil && ce.Key == R.HandOff.Key {
+			a := "other"
+			if len(args) == 1 {
+				a = name(args[0])
+			}
+			return &callEvent{Name: "handoff:" + a, Atomic: true}
+		}
+		switch jobMethod(fr.Fn.Info(), call, ce) {
+		case "setAckId":
+			a := "other"
+			if len(args) == 1 {
+				a = name(args[0])
+			}
+			return &callEvent{Name: "setack:" + a, Atomic: true}
+		case "setInternalQueue":
+			a := "other"
+			if len(args) == 1 {
+				a = name(args[0])
+			}
+			return &callEvent{Name: "setqueue:" + a, Atomic: true}
+		}
+		ev := base(fr, call, ce, args)
+		if ev == nil {
+			return nil
+		}
+		switch ev.Name {
+		case "deq", "parse", "nextq":
+			return ev
+		}
+		if ev.Atomic {
+			return &callEvent{Atomic: true, Results: ev.Results}
+		}
+		return nil
+	}
+	sr.relevant = func(f *Func) bool {
+		em := c.emits(f)
+		return em["deq"] || em["parse"] || em["nextq"] || em["handoff"] || em["setack"] || em["setqueue"]
+	}
+	return sr
 }
 
 func (c *Ctx) ruleOneInvocation(rule string) {
